@@ -16,6 +16,8 @@
 #include <cppcms/cache_interface.h>
 #include <cppcms/service.h>
 #include <cppcms/util.h>
+#include <memory>
+#include <functional>
 #include <map>
 #include <set>
 #include <list>
@@ -213,6 +215,68 @@ static void all_types(int shard,int nshards){ int counter=0;
 }
 
 
+// ---- (e) one archive object as a state machine ---------------------------------------------------------------------
+// Every sequence of <= depth operations on ONE archive object (saves in either mode, loads, mode(), reset(), str(image),
+// copy/move), against a model that is just (chunk bytes, cursor, mode). After every step the observable state
+// (mode(), str(), eof(), next_chunk_size()) and every load result must agree with the model: an image handed over with
+// str(image) is read from its beginning; mode()/reset() rewind; a copy continues where the original was.
+struct AModel { std::string buf; size_t p; int mode; AModel():p(0),mode(0){}
+	bool chunk(std::string &out){ if(p>=buf.size()) return false; if(buf.size()-p<4) return false; uint32_t n; memcpy(&n,buf.data()+p,4); if((size_t)n>buf.size()-p-4) return false; out.assign(buf,p+4,n); return true; }
+	void put(const std::string &c){ uint32_t n=c.size(); buf.append((char*)&n,4); buf+=c; }
+	bool get_int(int &v){ std::string c; if(!chunk(c)||c.size()!=4) return false; memcpy(&v,c.data(),4); p+=8; return true; }
+	bool get_str(std::string &v){ if(!chunk(v)) return false; p+=4+v.size(); return true; } };
+static std::string img_a(){ archive a; int v=0x11; a<<v; return a.str(); }
+static std::string img_b(){ archive a; int v=0x22; std::string s("xy"); int w=0x33; a<<v<<s<<w; return a.str(); }
+static const char *OBJ_OPS[]={"save_int","save_str","load_int","load_str","amp_int","load_pis","mode_load","mode_save","reset","str_a","str_b","str_empty","copy","move","assign_fresh_copy"};
+static const int N_OBJ_OPS=sizeof(OBJ_OPS)/sizeof(OBJ_OPS[0]);
+// runs one sequence; returns "" or a description of the first divergence
+static std::string g_div_op;
+static std::string obj_run(const std::vector<int> &ops,bool verbose=false){ g_div_op.clear();
+	std::unique_ptr<archive> a(new archive()); AModel m; std::string trace;
+	for(size_t i=0;i<ops.size();i++){ std::string op=OBJ_OPS[ops[i]]; std::string got,want;
+		try {
+			if(op=="save_int"){ int v=0x41+(int)i; *a<<v; m.put(std::string((char*)&v,4)); }
+			else if(op=="save_str"){ std::string v(i+1,'s'); *a<<v; m.put(v); }
+			else if(op=="load_int"){ int v=-1,w=-1; bool mk=m.get_int(w); want=mk?"int:"+std::to_string(w):"throw"; try{ *a>>v; got="int:"+std::to_string(v);}catch(archive_error const &){ got="throw"; } }
+			else if(op=="load_str"){ std::string v,w; bool mk=m.get_str(w); want=mk?"str:"+vf::hex(w):"throw"; try{ *a>>v; got="str:"+vf::hex(v);}catch(archive_error const &){ got="throw"; } }
+			else if(op=="amp_int"){ int v=0x61+(int)i; if(m.mode==0){ *a & v; m.put(std::string((char*)&v,4)); } else { int w=-1; bool mk=m.get_int(w); want=mk?"int:"+std::to_string(w):"throw"; try{ *a & v; got="int:"+std::to_string(v);}catch(archive_error const &){ got="throw"; } } }
+			else if(op=="load_pis"){ std::pair<int,std::string> v,w; bool mk=m.get_int(w.first)&&m.get_str(w.second); want=mk?"pis:"+std::to_string(w.first)+":"+vf::hex(w.second):"throw"; try{ *a>>v; got="pis:"+std::to_string(v.first)+":"+vf::hex(v.second);}catch(archive_error const &){ got="throw"; } }
+			else if(op=="mode_load"){ a->mode(archive::load_from_archive); m.mode=1; m.p=0; }
+			else if(op=="mode_save"){ a->mode(archive::save_to_archive); m.mode=0; m.p=0; }
+			else if(op=="reset"){ a->reset(); m.p=0; }
+			else if(op=="str_a"){ a->str(img_a()); m.buf=img_a(); m.mode=1; m.p=0; }
+			else if(op=="str_b"){ a->str(img_b()); m.buf=img_b(); m.mode=1; m.p=0; }
+			else if(op=="str_empty"){ a->str(std::string()); m.buf.clear(); m.mode=1; m.p=0; }
+			else if(op=="copy"){ std::unique_ptr<archive> b(new archive(*a)); a.swap(b); }
+			else if(op=="move"){ std::unique_ptr<archive> b(new archive(std::move(*a))); a.swap(b); }
+			else if(op=="assign_fresh_copy"){ std::unique_ptr<archive> b(new archive()); int junk=9; *b<<junk; *b=*a; a.swap(b); }
+		} catch(std::exception const &e){ got=std::string("unexpected-exception:")+e.what(); }
+		if(got!=want){ g_div_op=op; } if(got!=want) return "step "+std::to_string(i)+" ("+op+"): real "+got+" but the model says "+want;
+		// observable state after the step
+		std::string os,ms;
+		os="mode="+std::to_string((int)a->mode())+" str="+vf::hex(a->str())+" eof="+std::to_string((int)a->eof());
+		ms="mode="+std::to_string(m.mode)+" str="+vf::hex(m.buf)+" eof="+std::to_string((int)(m.p>=m.buf.size()));
+		{ std::string c; bool mk=m.chunk(c); ms+=mk?" next="+std::to_string(c.size()):" next=throw"; try{ size_t n=a->next_chunk_size(); os+=" next="+std::to_string(n);}catch(archive_error const &){ os+=" next=throw"; } }
+		if(verbose) printf("  %-18s %s\n",op.c_str(),os.c_str());
+		if(os!=ms){ g_div_op=op; } if(os!=ms) return "after step "+std::to_string(i)+" ("+op+"): real {"+os+"} but the model says {"+ms+"}";
+		if(!got.empty()&&got!="throw") vf::guard("object_loads_ok");
+		if(got=="throw") vf::guard("object_loads_refused");
+		if(op.compare(0,4,"str_")==0&&i>0) vf::guard("object_str_on_used_archive");
+	}
+	return "";
+}
+static std::string obj_names(const std::vector<int> &ops){ std::string s; for(size_t i=0;i<ops.size();i++){ if(i) s+=","; s+=OBJ_OPS[ops[i]]; } return s; }
+static void object_pass(int depth,int shard,int nshards){ std::vector<int> cur; uint64_t tick=0;
+	// iterative deepening: all sequences of length 1, then 2, ... so that the first counterexample per signature is a shortest one
+	for(int len=1;len<=depth;len++){ std::function<void(int)> rec=[&](int d){
+		if(d==len){ vf::eval(); vf::announce("object-seq "+obj_names(cur)); std::string r=obj_run(cur);
+			if(!r.empty()){ vf::violation("object-seq:"+g_div_op,"sequence ["+obj_names(cur)+"] on one archive object: "+r,"\"ops\":"+vf::jstr(obj_names(cur))); return; }
+			vf::guard("object_sequences"); if(d==depth&&vf::sample_tick(tick,20011)) vf::sample("{\"phase\":\"object-sequence\",\"ops\":"+vf::jstr(obj_names(cur))+",\"outcome\":\"agrees with the model at every step\"}",44);
+			vf::outcome("objseq|"+std::to_string(cur.size())+"|"+OBJ_OPS[cur.back()]); return; }
+		for(int o=0;o<N_OBJ_OPS;o++){ if(d==0&&o%nshards!=shard) continue; cur.push_back(o); rec(d+1); cur.pop_back(); } };
+		rec(0); }
+}
+
 // ---- the convenience calls: session_interface::store_data/fetch_data and cache_interface::store_data/fetch_data ------
 struct ConvJar : public cppcms::session_interface_cookie_adapter { std::map<std::string,std::string> c; void set_cookie(cppcms::http::cookie const &k){ if(k.value().empty()) c.erase(k.name()); else c[k.name()]=cppcms::util::urldecode(k.value()); } std::string get_session_cookie(std::string const &n){ return c.count(n)?c[n]:std::string(); } std::set<std::string> get_cookie_names(){ std::set<std::string> s; for(std::map<std::string,std::string>::iterator i=c.begin();i!=c.end();++i) s.insert(i->first); return s; } };
 static void convenience_pass(){ std::vector<User> us; U<User>::get(us); { User big; big.id=-5; big.name=std::string(700,'n'); for(int i=0;i<30;i++) big.tags.push_back(std::string(i,'t')); us.push_back(big); }
@@ -225,6 +289,9 @@ static void convenience_pass(){ std::vector<User> us; U<User>::get(us); { User b
 
 template<class T> bool replay_t(const char *want,const std::string &tname,const std::string &bytes){ if(tname!=want) return false; std::string c=load_case<T>(want,bytes); printf("replay: type=%s outcome=%s\n",want,c.substr(0,200).c_str()); return true; }
 static void replay(const std::string &file){ std::ifstream f(file); std::stringstream ss; ss<<f.rdbuf(); std::string l=ss.str(); std::string t=vf::jfield(l,"type"),b=vf::unhex(vf::jfield(l,"archive_hex")); g_phase="replay";
+	{ std::string ops=vf::jfield(l,"ops"); if(ops.empty()){ std::string c=vf::jfield(l,"case"); if(c.compare(0,11,"object-seq ")==0) ops=c.substr(11); }
+	  if(!ops.empty()){ std::vector<int> v; std::stringstream os(ops); std::string o; while(std::getline(os,o,',')) for(int k=0;k<N_OBJ_OPS;k++) if(o==OBJ_OPS[k]) v.push_back(k);
+		vf::eval(); std::string r=obj_run(v,true); printf("replay: ops=%s result=%s\n",ops.c_str(),r.empty()?"agrees with the model":r.c_str()); if(!r.empty()) vf::violation("object-seq:"+g_div_op,"sequence ["+ops+"] on one archive object: "+r,"\"ops\":"+vf::jstr(ops)); vf::sample("{\"phase\":\"replay\",\"ops\":"+vf::jstr(ops)+"}"); return; } }
 	if(t.empty()){ std::string c=vf::jfield(l,"case"); size_t a=c.find(' '),z=c.rfind(' '); if(a!=std::string::npos){ t=c.substr(0,a); b=vf::unhex(c.substr(z+1)); } }
 #define RP(T,name) if(replay_t<T>(name,t,b)) return;
 	RP(char,"char") RP(int,"int") RP(short,"short") RP(unsigned long long,"uint64") RP(double,"double") RP(std::string,"string") RP(VecI,"vector<int>") RP(std::vector<char>,"vector<char>") RP(std::vector<double>,"vector<double>") RP(VecS,"vector<string>")
@@ -235,13 +302,13 @@ static void replay(const std::string &file){ std::ifstream f(file); std::strings
 int main(int argc,char **argv){
 	vf::init(argc,argv,"C19","exploration");
 	if(!vf::C().replay_file.empty()){ replay(vf::C().replay_file); return vf::finish(); }
-	int depth=vf::thorough()?6:4;
-	vf::C().rule="(a) every value of a generated universe for 27 types (element counts 0,1,2,3; atoms incl. NUL strings, 300-byte string, NaN-free doubles, null/non-null pointers, user class, fixed arrays, json) saved and loaded; (b) for every such archive: every truncation, +1..4 trailing bytes, every 4-byte length field set to each of {0,1,2,3,4,5,8,cur-1,cur+1,rem-1..rem+5,2^31-1,2^32-4..2^32-1}, every byte replaced by 00/01/ff; (c) every sequence of <= "+std::to_string(depth)+" tokens from {12 length fields, 00, 01, 'abcd', 4 eight-byte counts} loaded as 9 types. Each load is compared with a strict reference chunk reader. (d) user objects through session_interface::store_data/fetch_data (incl. every truncation of the stored value) and cache_interface::store_data/fetch_data. distinct = distinct (type, outcome class incl. loaded value); non-trivial = non-empty archive in which at least one chunk header was well-formed or the load succeeded";
+	int depth=vf::thorough()?6:4; int odepth=vf::thorough()?6:5;
+	vf::C().rule="(a) every value of a generated universe for 27 types (element counts 0,1,2,3; atoms incl. NUL strings, 300-byte string, NaN-free doubles, null/non-null pointers, user class, fixed arrays, json) saved and loaded; (b) for every such archive: every truncation, +1..4 trailing bytes, every 4-byte length field set to each of {0,1,2,3,4,5,8,cur-1,cur+1,rem-1..rem+5,2^31-1,2^32-4..2^32-1}, every byte replaced by 00/01/ff; (c) every sequence of <= "+std::to_string(depth)+" tokens from {12 length fields, 00, 01, 'abcd', 4 eight-byte counts} loaded as 9 types. Each load is compared with a strict reference chunk reader. (d) user objects through session_interface::store_data/fetch_data (incl. every truncation of the stored value) and cache_interface::store_data/fetch_data. (e) every sequence of <= "+std::to_string(odepth)+" operations from {save int/string, load int/string/pair, operator&, mode(load), mode(save), reset(), str(image A/B/empty), copy, move, assign} on ONE archive object, compared step by step (load results, mode(), str(), eof(), next_chunk_size()) with a (bytes, cursor, mode) model. distinct = distinct (type, outcome class incl. loaded value); non-trivial = non-empty archive in which at least one chunk header was well-formed or the load succeeded";
 	vf::assume("the strict chunk reader ([u32 little-endian length][bytes], length <= bytes remaining) is the format definition; json chunks are parsed with json::value::load");
 	vf::assume("throwing any std::exception on malformed input is admissible");
 	int np=16;
-	vf::parallel(np,np,[&](int sh){ all_types(sh,np); token_pass(depth,sh,np); if(sh==0) convenience_pass(); },vf::thorough()?1200:300);
+	vf::parallel(np,np,[&](int sh){ all_types(sh,np); token_pass(depth,sh,np); object_pass(odepth,sh,np); if(sh==0) convenience_pass(); },vf::thorough()?1200:300);
 	vf::C().extra["token_depth"]=std::to_string(depth);
-	vf::require_guard("roundtrips"); vf::require_guard("session_store_data_roundtrips"); vf::require_guard("cache_store_data_roundtrips"); vf::require_guard("session_damaged_values"); vf::require_guard("lenfield_1to3_past_end"); vf::require_guard("truncation_refused"); vf::require_guard("token_archives_loaded");
+	vf::require_guard("roundtrips"); vf::require_guard("session_store_data_roundtrips"); vf::require_guard("cache_store_data_roundtrips"); vf::require_guard("session_damaged_values"); vf::require_guard("lenfield_1to3_past_end"); vf::require_guard("truncation_refused"); vf::require_guard("token_archives_loaded"); vf::require_guard("object_sequences"); vf::require_guard("object_str_on_used_archive"); vf::require_guard("object_loads_ok"); vf::require_guard("object_loads_refused");
 	return vf::finish();
 }
